@@ -25,3 +25,44 @@ prop(
     assumptions=["bech32 (AccAddress.String / AccAddressFromBech32) enters the string-form theorem as two explicit premises; "
                  "the correspondence instantiates them with tables computed by the real bech32 code"],
 )
+
+
+AOL_RULE = ("aol profile: histories of blocks over 4 funded accounts plus key-less/malformed address strings; messages "
+            "CreateTopic/AddWriter/DeleteWriter/AddRecord (with and without fee payer), bank sends, authz Grant/Revoke and MsgExec "
+            "wrapping; ~65% of transactions well-formed with their natural signers, the rest with boundary/malformed fields, wrong, "
+            "extra or swapped signers and unaffordable fees; after every block the aol store dump and sampled Record/Topic/Writer "
+            "queries are compared with the extracted model; monitors run on the implementation alone. A history is non-trivial if it "
+            "contains at least one accepted and one rejected transaction; distinct = distinct history texts")
+DID_RULE = ("did profile: 3 DIDs x 4 secp256k1 keys; documents in 10 shapes (key under authentication by reference / dedicated, only "
+            "under assertionMethod, only as verification method, Ed25519 type, rich document, malformed ids/base58/relationships, "
+            "no authentication); create/update(rotation)/deactivate with real signatures, wrong sequences, signatures over other "
+            "content, tampered/empty signatures, did field != document id, empty-id and missing documents, verbatim replays through "
+            "other relayers; after every block the did store dump and Query/DID of every DID are compared with the extracted model; "
+            "non-trivial = at least one accepted and one rejected transaction")
+
+
+def _aol_runs(tier, seed):
+    return [dict(profile="aol", seed=seed, n=_sizes(tier, 40, 3000), extra=["-blocks", str(_sizes(tier, 12, 30))])]
+
+
+def _did_runs(tier, seed):
+    return [dict(profile="did", seed=seed, n=_sizes(tier, 40, 3000), extra=["-blocks", str(_sizes(tier, 12, 30))])]
+
+
+CHAIN_ASSUME = ["the chain model covers the message alphabet AOL(4) + DID(3) + bank MsgSend + authz Grant/Revoke/Exec (generic "
+                "authorizations, inner messages not themselves MsgExec); other SDK modules cannot write to the custom stores "
+                "(store-key capability discipline of the SDK, trusted)",
+                "uint64 counters are unbounded N in the model; the 2^64-th record of one topic is refused by an explicit capacity "
+                "guard in the model where the real code would wrap (unreachable)",
+                "bech32 decoding enters as a function with the premise unbech_wf (decoded addresses are 1..255 bytes)"]
+
+prop(id="C01", vfile="Properties/C01.v", runs=_aol_runs, rule=AOL_RULE, assumptions=CHAIN_ASSUME)
+prop(id="C02", vfile="Properties/C02.v", runs=_aol_runs, rule=AOL_RULE, assumptions=CHAIN_ASSUME,
+     partial="signature verification and x/authz are modelled SDK parts (ante reduced to 'signed exactly by the required signers')")
+prop(id="C03", vfile="Properties/C03.v", runs=_did_runs, rule=DID_RULE,
+     assumptions=CHAIN_ASSUME + ["secp256k1/base58 enter as functions (verify, b58key); the correspondence uses the table of signatures "
+                                 "the harness produced with the real code (re-verified by the real code before use)"])
+prop(id="C04", vfile="Properties/C04.v", runs=_did_runs, rule=DID_RULE,
+     assumptions=CHAIN_ASSUME + ["sig_binds (a signature value verifies for at most one message) is an explicit premise of C04_no_replay"])
+prop(id="C05", vfile="Properties/C05.v", runs=_did_runs, rule=DID_RULE, assumptions=CHAIN_ASSUME)
+prop(id="C11", vfile="Properties/C11.v", runs=_did_runs, rule=DID_RULE, assumptions=CHAIN_ASSUME)
